@@ -1,4 +1,5 @@
 //! cachelito verification harness (see /verif/DESIGN.md).
+pub mod c02;
 pub mod core_l1;
 pub mod infra;
 pub mod keys;
